@@ -5,10 +5,10 @@ import Dawn.Ties.RunnerExpected
 Tie 1 for C04, C05, C09: the facts regenerated from `runner/runner.go` on this run are the ones the model
 `Dawn/Model/Runner.lean` is written against. Each theorem is re-checked by the kernel on every run.
 
-The ties are split over four modules so that a change to one mechanism leaves the obligations about the
+The ties are split over five modules so that a change to one mechanism leaves the obligations about the
 others discharged: this one (completeness of the extraction), `RunnerGate` (the gate and where it is entered
-and left: C09, C05), `RunnerTarget` (status, start, wait, run, Run: C04, C05) and `RunnerEval`
-(`EvaluateTargets` and the cycle walk: C04, C05). The order facts the proofs rely on are stated on their own
+and left: C09, C05), `RunnerTarget` (status, start, wait, run, Run: C04, C05), `RunnerEval`
+(`EvaluateTargets` and the cycle walk: C04, C05) and `RunnerClient` (how target.go / project.go use the runner). The order facts the proofs rely on are stated on their own
 (a change that breaks one names the argument it invalidates); the rest of every function — its
 synchronisation skeleton, hook call sites included — is compared with the snapshot taken when the model was
 written (`RunnerExpected.lean`, `bin/accept-extracted Runner`).
